@@ -985,10 +985,16 @@ Qed.
 (* ---------- what is known about a call record after any step history ---------- *)
 Definition started (l : list sevent) (c : N) (k : call) : Prop :=
   exists l1 l2, l = l1 ++ SAdd c (k_peer k) (k_lk k) (k_ann k) :: l2.
+(* the EFFECTIVE reads: the step at which the call was at stage 0 (resp. 2), i.e. the one that took
+   the snapshot; a repeated read step is a no-op and does not qualify *)
+Definition at_stage (l : list sevent) (c : N) (n : N) : Prop :=
+  exists k0, find_call c (calls (srun l)) = Some k0 /\ k_pc k0 = n.
 Definition provs_read (l : list sevent) (c : N) (k : call) : Prop :=
-  exists pre post, l = pre ++ SReadProviders c :: post /\ k_provs k = get_peers ROLE_PROVIDER (base (srun pre)).
+  exists pre post, l = pre ++ SReadProviders c :: post /\ at_stage pre c 0
+                   /\ k_provs k = get_peers ROLE_PROVIDER (base (srun pre)).
 Definition bids_read (l : list sevent) (c : N) (k : call) : Prop :=
-  exists pre post, l = pre ++ SReadBidders c :: post /\ incl (k_fan k) (get_peers ROLE_BIDDER (base (srun pre))).
+  exists pre post, l = pre ++ SReadBidders c :: post /\ at_stage pre c 2
+                   /\ incl (k_fan k) (get_peers ROLE_BIDDER (base (srun pre))).
 
 Definition call_inv (l : list sevent) (c : N) (k : call) : Prop :=
   started l c k /\ (1 <= k_pc k -> provs_read l c k)
@@ -1022,7 +1028,7 @@ Proof.
     destruct (N.eq_dec d c) as [->|Hne].
     + rewrite find_set_same by congruence. intros H. inversion H; subst k. clear H.
       destruct (IH c k0 Ed) as [H1 _]. split; [apply started_snoc, H1|]. cbn [k_pc k_provs]. split.
-      * intros _. exists l, []. split; reflexivity.
+      * intros _. exists l, []. split; [reflexivity|]. split; [exists k0; auto|reflexivity].
       * intros H; discriminate.
     + rewrite find_set_other by congruence. intros H. apply call_inv_snoc, IH, H.
   - destruct (find_call d (calls (srun l))) as [k0|] eqn:Ed; [|intros H; apply call_inv_snoc, IH, H].
@@ -1043,7 +1049,7 @@ Proof.
         split; [apply started_snoc, H1|]; cbn [k_pc k_provs k_peer k_fan]; split;
         [intros _; apply (provs_read_snoc l _ c k0), H2; lia|]
        |rewrite find_set_other by congruence; intros H; apply call_inv_snoc, IH, H]).
-    + intros _. split; [exact Er|]. exists l, []. split; [reflexivity|apply incl_refl].
+    + intros _. split; [exact Er|]. exists l, []. split; [reflexivity|]. split; [exists k0; auto|apply incl_refl].
     + intros H; discriminate.
   - destruct (find_call d (calls (srun l))) as [k0|] eqn:Ed; [|intros H; apply call_inv_snoc, IH, H].
     destruct (N.eqb_spec (k_pc k0) 3) as [Epc|Epc]; [|intros H; apply call_inv_snoc, IH, H].
@@ -1051,11 +1057,11 @@ Proof.
     destruct (tbl_get (k_lk k0) (k_peer k0)); [|intros H; apply call_inv_snoc, IH, H]. cbn [fst calls].
     destruct (N.eq_dec d c) as [->|Hne].
     + rewrite find_set_same by congruence. intros H. inversion H; subst k. clear H.
-      destruct (IH c k0 Ed) as [H1 [H2 H3]]. destruct (H3 Epc) as [Hr [pre [post [E Hi]]]].
+      destruct (IH c k0 Ed) as [H1 [H2 H3]]. destruct (H3 Epc) as [Hr [pre [post [E [Hst Hi]]]]].
       split; [apply started_snoc, H1|]. cbn [k_pc k_provs k_peer k_fan]. split.
       * intros _. apply (provs_read_snoc l _ c k0), H2. lia.
       * intros _. split; [exact Hr|]. exists pre, (post ++ [SFanout c]).
-        split; [subst l; rewrite <- app_assoc; reflexivity|].
+        split; [subst l; rewrite <- app_assoc; reflexivity|]. split; [exact Hst|].
         intros x Hx. apply Hi. rewrite Ef. right; exact Hx.
     + rewrite find_set_other by congruence. intros H. apply call_inv_snoc, IH, H.
   - cbn [fst calls]. intros H. apply call_inv_snoc, IH, H.
@@ -1074,22 +1080,23 @@ Definition sound_announce (l : list sevent) (c : N) (t : peer) (recs : list reco
   ( (t = p /\ recs <> [] /\
      forall a u, In (a, u) recs ->
        a <> p_addr p /\ tbl_get lk (mkPeer a ROLE_PROVIDER) = Some u /\
-       exists pre post, l = pre ++ SReadProviders c :: post
+       exists pre post, l = pre ++ SReadProviders c :: post /\ at_stage pre c 0
                         /\ In (mkPeer a ROLE_PROVIDER) (get_peers ROLE_PROVIDER (base (srun pre))))
     \/
     (p_role p = ROLE_PROVIDER /\ exists u, tbl_get lk p = Some u /\ recs = [(p_addr p, u)] /\
-     exists pre post, l = pre ++ SReadBidders c :: post /\ In t (get_peers ROLE_BIDDER (base (srun pre)))) ).
+     exists pre post, l = pre ++ SReadBidders c :: post /\ at_stage pre c 2
+                      /\ In t (get_peers ROLE_BIDDER (base (srun pre)))) ).
 
 Lemma sound_announce_snoc l e c t recs : sound_announce l c t recs -> sound_announce (l ++ [e]) c t recs.
 Proof.
   intros [p [lk [ann [l1 [l2 [E H]]]]]]. exists p, lk, ann, l1, (l2 ++ [e]).
   split; [subst l; rewrite <- app_assoc; reflexivity|].
-  destruct H as [[H1 [H2 H3]]|[H1 [u [H2 [H3 [pre [post [E2 H4]]]]]]]].
-  - left. split; [exact H1|]. split; [exact H2|]. intros a u Hin. destruct (H3 a u Hin) as [Ha [Hl [pre [post [E2 Hi]]]]].
+  destruct H as [[H1 [H2 H3]]|[H1 [u [H2 [H3 [pre [post [E2 [Hst H4]]]]]]]]].
+  - left. split; [exact H1|]. split; [exact H2|]. intros a u Hin. destruct (H3 a u Hin) as [Ha [Hl [pre [post [E2 [Hst Hi]]]]]].
     split; [exact Ha|]. split; [exact Hl|]. exists pre, (post ++ [e]).
-    split; [rewrite E2, <- app_assoc; reflexivity|exact Hi].
+    split; [rewrite E2, <- app_assoc; reflexivity|]. split; [exact Hst|exact Hi].
   - right. split; [exact H1|]. exists u. split; [exact H2|]. split; [exact H3|].
-    exists pre, (post ++ [e]). split; [rewrite E2, <- app_assoc; reflexivity|exact H4].
+    exists pre, (post ++ [e]). split; [rewrite E2, <- app_assoc; reflexivity|]. split; [exact Hst|exact H4].
 Qed.
 
 Theorem step_sound l : forall c t recs, In (Announce t recs) (call_effects c l) -> sound_announce l c t recs.
@@ -1106,7 +1113,7 @@ Proof.
     destruct (records_for (k_peer k) (k_lk k) (k_provs k)) as [|r0 rs] eqn:Er; [destruct H|].
     apply In_announce_broadcast in H. destruct H as [-> ->].
     destruct (calls_inv l c k Ec) as [[l1 [l2 E1]] [H2 _]].
-    destruct H2 as [pre [post [E2 Hs]]]; [lia|].
+    destruct H2 as [pre [post [E2 [Hst Hs]]]]; [lia|].
     exists (k_peer k), (k_lk k), (k_ann k), l1, (l2 ++ [SAnnounce c]).
     split; [rewrite E1, <- app_assoc; reflexivity|]. left. split; [reflexivity|]. split; [discriminate|].
     intros a u Hin. rewrite <- Er in Hin. apply In_records_for in Hin.
@@ -1115,7 +1122,7 @@ Proof.
     { destruct (wf_srun pre) as [[HP _] _]. apply HP. exact Hq. }
     assert (Eq : q = mkPeer a ROLE_PROVIDER) by (destruct q; cbn in *; subst; reflexivity). subst q.
     split; [exact Hne|]. split; [exact Hlk|]. exists pre, (post ++ [SAnnounce c]).
-    split; [rewrite E2, <- app_assoc; reflexivity|exact Hq].
+    split; [rewrite E2, <- app_assoc; reflexivity|]. split; [exact Hst|exact Hq].
   - destruct (find_call c (calls (srun l))) as [k|]; [|destruct H]. destruct (k_pc k =? 2); [|destruct H].
     destruct (p_role (k_peer k) =? ROLE_PROVIDER)%Z; [|destruct H]. destruct (tbl_get (k_lk k) (k_peer k)); destruct H.
   - destruct (find_call c (calls (srun l))) as [k|] eqn:Ec; [|destruct H].
@@ -1123,11 +1130,11 @@ Proof.
     destruct (k_fan k) as [|b rest] eqn:Ef; [destruct H|].
     destruct (tbl_get (k_lk k) (k_peer k)) as [u|] eqn:Elk; [|destruct H]. cbn [snd] in H.
     apply In_announce_broadcast in H. destruct H as [-> ->].
-    destruct (calls_inv l c k Ec) as [[l1 [l2 E1]] [_ H3]]. destruct (H3 Epc) as [Hr [pre [post [E2 Hi]]]].
+    destruct (calls_inv l c k Ec) as [[l1 [l2 E1]] [_ H3]]. destruct (H3 Epc) as [Hr [pre [post [E2 [Hst Hi]]]]].
     exists (k_peer k), (k_lk k), (k_ann k), l1, (l2 ++ [SFanout c]).
     split; [rewrite E1, <- app_assoc; reflexivity|]. right. split; [exact Hr|]. exists u.
     split; [exact Elk|]. split; [reflexivity|]. exists pre, (post ++ [SFanout c]).
-    split; [rewrite E2, <- app_assoc; reflexivity|]. apply Hi. rewrite Ef. left; reflexivity.
+    split; [rewrite E2, <- app_assoc; reflexivity|]. split; [exact Hst|]. apply Hi. rewrite Ef. left; reflexivity.
 Qed.
 
 (* how one step changes the record of call c *)
@@ -1534,3 +1541,62 @@ Example ex_step_twice :
   /\ call_effects 0 exOverlap = [Announce exB1 [(1, bos "u1")]; Wire exB1 [(addr_bytes 1, bos "u1")]]
   /\ call_completed exOverlap 0 /\ call_completed exOverlap 1.
 Proof. repeat split; try reflexivity; eexists; split; reflexivity. Qed.
+
+(* ================= the late add: event level versus system level =================
+   C15_view speaks about the events the Topology RECEIVES.  For a peer learned through gossip the
+   only "connect" event is the worker's AddPeers, made after Service.Connect has returned; the
+   registry's disconnect notification for the same connection is not ordered with it.  The small
+   joint machine below makes the window explicit: the p2p layer's registry (abstracted to the set of
+   registered peers; model/PeerRegistry.v is the real one), the worker's pending result, and the
+   event list the topology receives.  ([ConnectDone] of model/Topology.v is the moment the worker
+   calls AddPeers; in Compose_topology's joint machine it is emitted in the step in which Connect
+   returns, which hides this window.) *)
+Inductive yevent :=
+| YInbound (p : peer) (lk : list (peer * bytes)) (ann : list (peer * N))   (* inbound handshake: registered, Connected(p) *)
+| YGossip (from : peer) (readok : bool) (entries : list wire_record)      (* received list *)
+| YConnectReturns (u : bytes) (p : peer)     (* Service.Connect(u) returns p: registered; the worker holds the result *)
+| YWorkerAdds (u : bytes) (p : peer)         (* the worker calls topo.AddPeers(p) *)
+| YClosed (p : peer).                        (* p's connection closes: forgotten; Disconnected(p) if it was registered *)
+
+Record ystate := mkY { y_reg : list peer; y_pend : list (bytes * peer); y_tev : list event }.
+Definition yinit : ystate := mkY [] [] [].
+
+Definition peer_mem (p : peer) (l : list peer) : bool := existsb (peer_eqb p) l.
+Definition ystep (s : ystate) (e : yevent) : ystate :=
+  match e with
+  | YInbound p lk ann => mkY (p :: y_reg s) (y_pend s) (y_tev s ++ [Connected p lk ann])
+  | YGossip from ok entries => mkY (y_reg s) (y_pend s) (y_tev s ++ [Gossip from ok entries])
+  | YConnectReturns u p => mkY (p :: y_reg s) ((u, p) :: y_pend s) (y_tev s)
+  | YWorkerAdds u p =>
+      if existsb (fun x => bytes_eqb (fst x) u && peer_eqb (snd x) p) (y_pend s)
+      then mkY (y_reg s) (y_pend s) (y_tev s ++ [ConnectDone u (Some p)])
+      else s
+  | YClosed p =>
+      if peer_mem p (y_reg s)
+      then mkY (filter (fun q => negb (peer_eqb q p)) (y_reg s)) (y_pend s) (y_tev s ++ [Disconnected p])
+      else s
+  end.
+Definition yrun (l : list yevent) : ystate := fold_left ystep l yinit.
+
+(* SYSTEM LEVEL, refuted: "every peer in the reported view is registered with the p2p layer"
+   does not hold of the code as it is.  Witness: B is learned through gossip, Connect returns B,
+   B's connection closes (the topology is told Disconnected(B) and has nothing to remove), then the
+   worker adds B: B is reported (and used for the bid fan-out, and IsConnected(B) is true, so no
+   later gossip list re-dials it) although the registry has forgotten it; no further notification
+   will remove it. *)
+Definition exLate : list yevent :=
+  [YGossip exB1 true [(addr_bytes 2, bos "u2")]; YConnectReturns (bos "u2") exP2; YClosed exP2;
+   YWorkerAdds (bos "u2") exP2].
+Theorem late_add_refuted :
+  exists ys, let s := yrun ys in
+    In exP2 (get_peers ROLE_PROVIDER (run (y_tev s))) /\ is_connected 2 (run (y_tev s)) = true
+    /\ peer_mem exP2 (y_reg s) = false
+    /\ y_tev s = [Gossip exB1 true [(addr_bytes 2, bos "u2")]; Disconnected exP2; ConnectDone (bos "u2") (Some exP2)].
+Proof. exists exLate. repeat split; try reflexivity. left; reflexivity. Qed.
+
+(* EVENT LEVEL, holds: on the very same histories the view is exactly what the received events
+   say -- in the witness B's add comes after its Disconnected, so B is "added and not since
+   disconnected". *)
+Theorem late_add_event_level ys a r : is_role r ->
+  (In (mkPeer a r) (get_peers r (run (y_tev (yrun ys)))) <-> live a r (y_tev (yrun ys))).
+Proof. intros Hr. apply view_exact, Hr. Qed.
